@@ -93,6 +93,16 @@ def gen_faults(bound):
                         init['A'][1 + offset if where == 'source' else 1] = bad
                         yield {'nvars': 2, 'n': 3, 't': 1, 'script': {'1:1': [['B', ['move', 0.125]]]}, 'init': init, 'preexisting': True,
                                'opts': {'min_iter': 0, 'max_iter': 2, 'tol': 0.5, 'failures': 'ignore', 'errors': errors, 'offset': offset}}
+        # very large but finite values in several check variables are not a fault (their sum would overflow)
+        for big in (1e308, -1e308, 1.7e308):
+            for errors in ERRORS[:4]:
+                for cfe in (True, False):
+                    script = {'1:1': [['A', ['set', big]], ['B', ['set', big]]]}
+                    yield {'nvars': 2, 'n': 2, 't': 1, 'script': script, 'heal': None, 'fault_at': None, 'preexisting': True,
+                           'opts': {'min_iter': 0, 'max_iter': 3, 'tol': 0.5, 'failures': 'ignore', 'errors': errors, 'catch_first_error': cfe}}
+                    yield {'nvars': 2, 'n': 2, 't': 1, 'script': {}, 'init': {'A': [1.0, big], 'B': [1.0, big], 'X': [0.0, 0.0]},
+                           'preexisting': True,
+                           'opts': {'min_iter': 0, 'max_iter': 2, 'tol': 0.5, 'failures': 'ignore', 'errors': errors, 'catch_first_error': cfe}}
         # pre-existing non-finite arriving in a non-check variable (must not matter)
         for errors in ERRORS[:4]:
             yield {'nvars': 2, 'n': 2, 't': 1, 'check': ['A'], 'init': {'A': [1.0, 1.0], 'B': [1.0, 'nan'], 'X': [0.0, 0.0]},
